@@ -150,6 +150,18 @@ PROPS["C09"] = dict(
     assumptions=["signal-handler posts are raised synchronously at generated points of the program (not between arbitrary instructions)"],
     level_text="exploration of generated post/handler/unregister programs over the three transports, four poster contexts and large bursts; blocking posts are detected at the write boundary instead of by hanging",
     level_note=_COMMON_NOTE, technique=_TECH, design_ref="DESIGN.md section 3 (C09)")
+SIG_LABELS = ["mixed_flags_on_one_signal", "delivery_inside_handler", "exclusive_unregistered_with_delivery_open", "this_thread_candidates", "two_owner_threads",
+              "raise_inside_register_or_unregister", "fork_child_raises", "receiver_without_loop_state", "handoff_to_non_exclusive", "coalesced_delivery",
+              "last_unregister_restores_default", "method_epoll_timerfd", "method_epoll", "method_ppoll", "method_poll", "exclusive_candidates",
+              "this_thread_shadows_process_wide", "other_threads_this_thread_interest_not_woken", "pipe_transport"]
+PROPS["C10"] = dict(
+    level="exploration", labels=SIG_LABELS, engine="sig",
+    campaigns=[("sig", [], 60000, 1200000)],
+    rule="cases = (program bytes, schedule bytes): 1-2 owner loops each with up to 5 interests over 3 signal numbers (SIGUSR1, SIGUSR2, SIGRTMIN+1) and flags {0, EXCLUSIVE, THIS_THREAD, both}, an optional plain raiser thread without loop state, deliveries raised by whichever thread holds the baton (also from inside handlers and from inside iv_signal_register/unregister while the library has signals blocked), register/unregister in any order incl. exclusive interests with an open delivery, fork of a child that raises every signal itself; oracle = obligation model as a validity predicate: candidates of a delivery = the receiver's this-thread interests if any, else the process-wide ones; no exclusive candidate -> every candidate owes a handler run after the delivery; exclusive candidates -> at least one of them (or, after they are unregistered, whatever the same tree holds then) must run; handler runs per interest <= deliveries it was a candidate for (never woken for other threads' this-thread deliveries, never by a forked child); all obligations discharged whenever every thread is parked; sigaction disposition is SIG_DFL exactly when no interest is registered; handler thread = registering thread; non-trivial = >=2 interests of different flags on one signal, or a delivery inside a handler, or an exclusive interest unregistered while its delivery was open; distinct = hash(program actions)",
+    assumptions=["deliveries are self-directed (pthread_kill to the running thread), so signals arrive at yield points and wrapped libc calls, not between arbitrary instructions",
+                 "the generator keeps a delivery and ANOTHER thread's register/unregister of the same signal apart (no defined candidate set for that race); C14 covers that race for data races"],
+    level_text="exploration of generated interest sets, delivery points and schedules against an obligation model; order of handler invocations is left free, as in the documentation",
+    level_note=_MT_NOTE, technique=_MT_TECH, design_ref="DESIGN.md section 3 (C10)")
 
 ENGINES = [
     dict(name="vfz", path="harness/vfz.c", serves_properties=["C01", "C02", "C03", "C04", "C06", "C07"],
@@ -164,6 +176,7 @@ ENGINES.append(dict(name="timers", path="harness/t_timers.c", serves_properties=
 ENGINES.append(dict(name="pump", path="harness/t_pump.c", serves_properties=["C17"], kind_free_text="iv_fd_pump sessions with interposed read/write/splice/shutdown and external byte accounting"))
 ENGINES.append(dict(name="vsched", path="harness/vsched.c", serves_properties=["C08", "C12", "C13"], kind_free_text="engine B: baton scheduler over real pthreads with generated schedules (second choice stream), deadlock/quiescence detection, virtual time"))
 ENGINES.append(dict(name="mt", path="harness/t_mt.c", serves_properties=["C08", "C12", "C13"], kind_free_text="multi-threaded scenario programs: owners, posters, work pool, iv_thread children"))
+ENGINES.append(dict(name="sig", path="harness/t_sig.c", serves_properties=["C10"], kind_free_text="iv_signal scenarios on engine B with an obligation-model oracle"))
 NOT_APPLICABLE = {}
 
 for _pid, _txt in {
